@@ -2080,6 +2080,12 @@ class SSHConnection(SSHPacketHandler, asyncio.Protocol):
 
         self._kex_complete = True
 
+        # Restart the rekey timer now that the new keys are taken into
+        # use, so a time limit reached while the exchange was in progress
+        # doesn't start another exchange before deferred data is sent
+        if self._rekey_seconds:
+            self._rekey_time = time.monotonic() + self._rekey_seconds
+
         if first_kex:
             if self.is_client():
                 self.send_service_request(_USERAUTH_SERVICE)
